@@ -302,7 +302,15 @@ def run(repo: Repo, rep: Report, tier: str) -> None:
     for c9 in apps9:
         gs9 = _cg9(rsi, _stmt(parents_map(rsi.node), c9))
         # allowed: under a guard that says no typed candidate exists (`not candidates` / `not entry.signal_type` ...)
-        ok9 = any((not pol) and (g in ("candidates", "ANY([], AUG([ELEM(...)]))") or g.endswith(".signal_type") or g == crsi.text(c9.func.value)) for g, pol in gs9)
+        # the enclosing test has a conjunct `not <the candidate list itself>` (same local on both sides, so a rename cannot matter)
+        recv9 = c9.func.value.id if isinstance(c9.func.value, ast.Name) else None
+        pm9 = parents_map(rsi.node)
+        encl = _stmt(pm9, c9)
+        encl_if = pm9.get(encl)
+        conj = []
+        if isinstance(encl_if, ast.If):
+            conj = list(encl_if.test.values) if isinstance(encl_if.test, ast.BoolOp) and isinstance(encl_if.test.op, ast.And) else [encl_if.test]
+        ok9 = recv9 is not None and any(isinstance(t, ast.UnaryOp) and isinstance(t.op, ast.Not) and isinstance(t.operand, ast.Name) and t.operand.id == recv9 for t in conj)
         rep.check(ok9, "C13-R9", "_resolve_signal_identity: the label is a candidate only when no type is known", "guarded by the absence of typed candidates" if ok9 else
                   f"appended under {[('' if p else 'not ') + g[:50] for g, p in gs9]}: an untyped value whose variable is called like a game signal (coal, water, stone, wood) is put on that signal", rsi.loc(c9))
     if not apps9:
